@@ -1,8 +1,9 @@
 """Python AST -> effect IR (C19).  Regenerates, from /repo's current source, the program that
 `PewModel/Effects.lean` analyses.  See DESIGN.md 5.19.
 
-IR (JSON): ["skip"] | ["bind", x, src] | ["write", x] | ["ret", x] | ["store", x, label, y] | ["seq", [s...]] |
-           ["branch", s, t] | ["loop", s]
+IR (JSON): ["skip"] | ["bind", x, src] | ["write", x] | ["ret", x] | ["store", x, label, y] | ["kill", [x...]] |
+           ["seq", [s...]] | ["branch", s, t] | ["loop", s]
+           (`kill`: the variables of an inlined callee go out of scope when it has returned; they are unbound again)
            src = ["param", i] | ["fresh", site] | ["alias", [y...]] | ["load", [y...], label, site] | ["reach", [y...]] |
                  ["unknown"]
 
@@ -769,6 +770,8 @@ def definitely_bound(ir, bound, rets=None, jumps=None):
             if y not in bound:
                 return bound, y
         return bound, None
+    if k == "kill":
+        return bound - set(ir[1]), None
     if k == "seq":
         for s in ir[1]:
             bound, bad = definitely_bound(s, bound, rets, jumps)
@@ -1069,6 +1072,7 @@ class Translator:
         self.labels = {}    # attribute name -> heap label (>= 2)
         self.lambda_vals = {}
         self.gvar = None    # the object standing for all mutable module-level state
+        self.killed = set() # IR variables of inlined callees that have returned (already out of scope)
 
     def new(self):
         self.nvars += 1
@@ -1152,6 +1156,108 @@ class Translator:
         if constructor:
             scope.ret(scope.name_val(params[0][0]), out)
         return ["seq", out]
+
+    # ------------------------------------------------------------------ call histories on one object
+    def translate_history(self, cls_key, producer, members):
+        """The IR of all call histories `obj = <producer>(...); obj.m1(...); obj.m2(...); ...` on an EXACT instance of
+        class `cls_key` (see `history` in PewModel/Effects.lean).
+        producer: ("init", def_key, fn) | ("classmethod", def_key, fn);  members: [(qualified name, def_key, fn, kind)] with
+        kind in {"method", "property", "setter"}, dispatched as on an exact `cls_key` object.
+        The parameters of the history are the producer's own parameters (without self / cls) followed by every member's
+        (without self): what the caller passes at construction and in the later calls.  `*args` / `**kwargs` are not
+        passed.  Returns {"np", "params": [(owner, name)], "ctor": IR, "methods": [IR], "obj": receiver variable,
+        "tmp": an unused variable, "diag"}; a construct that cannot be expressed makes the whole history unknown."""
+        self.reset()
+        prog = self.prog
+        kind, pkey, pfn = producer
+
+        def own_params(fn, skip_first):
+            a = fn.args
+            ps = [(x.arg, ast.unparse(x.annotation) if x.annotation else None) for x in a.posonlyargs + a.args + a.kwonlyargs]
+            return ps[1:] if skip_first else ps
+        pname = f"{cls_key[0]}.{cls_key[1]}" + ("" if kind == "init" else f".{pfn.name}")
+        plist = [(pname, n, ann, pkey[0]) for n, ann in own_params(pfn, True)]
+        for q, dkey, fn, mkind in members:
+            plist += [(q, n, ann, dkey[0]) for n, ann in own_params(fn, True)]
+        nparams = len(plist)
+        try:
+            bad_dunders = prog.unhandled_dunders()
+            if bad_dunders:
+                raise Unsupported(f"classes define special methods that are called implicitly and not followed: {bad_dunders[:5]}")
+            scope = Scope(self, cls_key[0], None, top=True)
+            pre = []
+            pvals = {}
+            for idx, (owner, n, ann, mod) in enumerate(plist):
+                v = scope.var(f"{owner}({n})")
+                assert v == idx
+                pre.append(["bind", v, ["param", idx]])
+            self.gvar = self.new()
+            pre.append(["bind", self.gvar, ["fresh", self.site()]])
+            for idx, (owner, n, ann, mod) in enumerate(plist):
+                scope.annotate(idx, mod, ann, is_self=False)
+                pvals[(owner, n)] = f"{owner}({n})"
+            scope.stable = set(scope.vars)
+            stack = [(cls_key[0], "<history>")]
+            kw = {n: scope.name_val(pvals[(pname, n)]) for n, _ in own_params(pfn, True)}
+            if kind == "init":
+                so = scope.fresh(pre)
+                scope.set_tag(so, ("cls", cls_key))
+                selfval = Val([so], False, False, False, ("cls", cls_key))
+                scope.inline(pkey[0], pfn, [selfval], kw, pre, stack, cls_key=cls_key, def_cls=pkey)
+                made = selfval
+            else:
+                made = scope.inline(pkey[0], pfn, [FRESH], kw, pre, stack, cls_key=cls_key, def_cls=pkey)
+            obj = scope.var("<receiver>")
+            scope.bind(pre, obj, made)
+            if scope.tag_of(obj) is None and not scope.is_arr(made):
+                scope.set_tag(obj, ("cls", cls_key))
+            recv_tag = scope.tag_of(obj)
+            alts_final = []
+
+            def make(body):
+                arr0, arrs = set(scope.arr), []
+                del alts_final[:]
+                for q, dkey, fn, mkind in members:
+                    scope.arr = set(arr0)
+                    b = []
+                    recv = scope.name_val("<receiver>")
+                    kwm = {n: scope.name_val(pvals[(q, n)]) for n, _ in own_params(fn, True)}
+                    scope.inline(dkey[0], fn, [recv], kwm, b, stack, cls_key=cls_key, def_cls=dkey)
+                    arrs.append(scope.arr)
+                    alts_final.append(["seq", b])
+                scope.arr = set.intersection(*arrs) if arrs else arr0
+                node = ["skip"]
+                for alt in reversed(alts_final):
+                    node = ["branch", alt, node]
+                body.append(node)
+                return FRESH
+            loop_out = []
+            scope.in_loop(loop_out, make)
+            ir = ["seq", pre + loop_out]
+            poisoned = []
+            for _ in range(200):
+                _, bad = definitely_bound(ir, frozenset())
+                if bad is None:
+                    break
+                owner = self.var_name.get(bad)
+                if owner is not None and owner[1] in self.py_unbound(owner[0]):
+                    raise Unsupported("a followed function may read one of its own names before binding it")
+                poisoned.append(bad)
+                pre.insert(0, ["bind", bad, ["unknown"]])
+                ir = ["seq", pre + loop_out]
+            else:
+                raise Unsupported("too many IR variables read before they are bound on every path")
+            if poisoned:
+                self.diag.append(f"IR variables read while possibly unbound, bound to `unknown` at entry: {poisoned}")
+            ctor = strip_markers(["seq", pre])
+            methods = [strip_markers(a) for a in alts_final]
+        except Unsupported as e:
+            self.diag.append(f"UNKNOWN HISTORY ({e}): every parameter may be written")
+            ctor, methods, obj = unknown_program(nparams), [], nparams
+            ctor = ["seq", ctor[1] + [["bind", obj, ["fresh", 0]]]]
+            self.nvars = nparams + 1
+        return {"np": nparams, "params": [(o, n) for o, n, _, _ in plist], "ctor": ctor, "methods": methods, "obj": obj,
+                "tmp": self.new(), "diag": list(self.diag)}
 
     def func_locals(self, mod, fn, scope=None):
         """local names that are only ever bound by `name = <pewlib function | local function | lambda>`:
@@ -2712,6 +2818,7 @@ class Scope:
             return self.unknown_call(f"{fn.name} (inline limit)", args + list(kwargs.values()), out, fn)
         if isinstance(fn, ast.FunctionDef) and unknown_decorators(fn):
             return self.unknown_call(f"{fn.name} (decorated: {unknown_decorators(fn)})", args + list(kwargs.values()), out, fn)
+        n0 = self.tr.nvars
         sc = Scope(self.tr, mod, cls_key)
         own_names = assigned_names(fn) | {n for n, _ in Translator.param_names(fn)}
         if closure is not None:  # free variables of a nested function are the enclosing scope's (read when it runs)
@@ -2792,6 +2899,12 @@ class Scope:
         sc.prebind_captured(fn, body_ir)
         sc.block(fn.body, body_ir, stack + [key])
         out.append(["scope", body_ir])
+        # the callee has returned: its parameters, locals and temporaries (every IR variable created since the call
+        # started, except the result) are out of scope; the analysis drops them (`kill`), which keeps its state small
+        dead = [v for v in range(n0, self.tr.nvars) if v != sc.res and v not in self.tr.killed]
+        if dead:
+            out.append(["kill", dead])
+            self.tr.killed.update(dead)
         # facts about the fields of objects passed as exactly one variable hold for the caller's variable too
         rb = assigned_names(fn)
         for name, ann in params:
@@ -2898,6 +3011,60 @@ def inventory(prog: Program, modules=None):
                         out.append((f"{mod}.{node.name}.{n.name}.setter", mod, n, (mod, node.name), False))
                     else:
                         out.append((f"{mod}.{node.name}.{n.name}", mod, n, (mod, node.name), False))
+    return out
+
+
+def class_members(prog: Program, cls_key):
+    """what can be called on an EXACT instance of the class: (producers, members).
+    producers: the constructor and the public classmethods of the hierarchy (as dispatched on `cls_key`);
+    members: the public methods, property getters and property setters (ordinary dispatch: the first definition in
+    the MRO), as (qualified name of the definition, def_key, fn, kind)"""
+    producers, members, seen = [], [], set()
+    init = prog.find_method(cls_key, "__init__")
+    if init is not None:
+        producers.append(("init", init[0], init[1]))
+    for k in prog.mro(cls_key):
+        for n in prog.classes[k].body:
+            if not isinstance(n, ast.FunctionDef) or n.name.startswith("_"):
+                continue
+            decs = decorators(n)
+            setter = any(d.endswith(".setter") for d in decs)
+            slot = (n.name, "setter" if setter else "get")
+            if slot in seen:
+                continue
+            seen.add(slot)
+            if "staticmethod" in decs:
+                continue
+            if "classmethod" in decs:
+                producers.append(("classmethod", k, n))
+            elif setter:
+                members.append((f"{k[0]}.{k[1]}.{n.name}.setter", k, n, "setter"))
+            elif "property" in decs:
+                members.append((f"{k[0]}.{k[1]}.{n.name}", k, n, "property"))
+            elif n.args.args and n.args.args[0].arg == "self":
+                members.append((f"{k[0]}.{k[1]}.{n.name}", k, n, "method"))
+    return producers, members
+
+
+def histories(prog: Program, tr: "Translator", modules=None):
+    """one history program per (public class of the inventoried modules, producer)"""
+    out = []
+    for mod in (INVENTORY_MODULES if modules is None else modules):
+        tree = prog.mods.get(mod)
+        if tree is None:
+            continue
+        for node in tree.body:
+            if not (isinstance(node, ast.ClassDef) and not node.name.startswith("_")):
+                continue
+            key = (mod, node.name)
+            producers, members = class_members(prog, key)
+            for pr in producers:
+                h = tr.translate_history(key, pr, members)
+                h["class"] = f"{mod}.{node.name}"
+                h["producer"] = h["class"] if pr[0] == "init" else f"{h['class']}.{pr[2].name}"
+                h["members"] = [m[0] for m in members]
+                h["member_kinds"] = [m[3] for m in members]
+                out.append(h)
     return out
 
 
